@@ -62,6 +62,19 @@ SUBEV_RULE = (" subscription-events: hubs with subscription tracking on (every 7
               "active=true / active=false per (subscriber, selector) in that order, payload and type, the restricted watcher sees exactly its selector's events.")
 
 PROPS = {
+    "C03": {
+        "stages": [{"kind": "cases", "name": "token-mutations", "driver": "C03", "n": {"quick": 60, "thorough": 600}}],
+        "rule": "hubs configured with every algorithm family it accepts (HS256/384/512, RS256/512, ES256/384, EdDSA; fresh keys per run), publisher and subscriber keys "
+                "different, anonymous on and off; for every draw a valid token (exp/nbf offsets 0, +-2 s, +-1 h) issued for one of the two roles and one mutation among: "
+                "alg none (with/without signature), lower-case alg, HMAC keyed with the public PEM / a guessed secret, correctly signed with another family's key, "
+                "truncated / empty / padded / std-alphabet signature, 2 or 4 segments, doubled separator, swapped segments, re-encoded payload, one base64 character "
+                "flipped in each segment; sent to the publish, subscribe or subscription-API endpoint. An independent verifier (Go crypto/* and encoding/base64 directly, "
+                "no golang-jwt) supplies the primitives' results; the Coq pipeline and the spec predicate are evaluated on them and compared with the hub's status. "
+                "non-trivial = mutated token, or a token issued for the other role",
+        "trusted": ["cryptographic primitives (Go crypto/*), base64 and JSON decoders: oracles; golang-jwt's parsing is exercised, not modelled beyond its order of checks",
+                    "the independent verifier in harness/cmd/verifh/c03.go"],
+        "assumptions": ["unforgeability of HMAC / RSA / ECDSA / EdDSA is not established by anything here"],
+    },
     "C18": {
         "stages": [{"kind": "cases", "name": "subscription-api", "driver": "SUBAPI", "n": {"quick": 200, "thorough": 4000}}, HUB_STAGE],
         "rule": "subscription-api: hubs with the subscription API on both transports; 1-4 subscribers with 1-4 selectors over the escaping alphabet (space, '+', '/', '%', "
